@@ -386,6 +386,7 @@ PROPS["C09"] = {
     "min_evals": {"quick": 800, "thorough": 30000},
     "legs": [
         Leg("pipeline", "c09", "^TestPipeline$", engine="sched", checks=(500, 15000), shards=(2, 16), tests=["pipeline"]),
+        Leg("reconnect", "c09", "^TestReconnect$", engine="sched", checks=(300, 8000), shards=(2, 16), tests=["reconnect"]),
         Leg("long-stall", "c09", "^TestLongStall$", engine="sched", checks=(1, 3), shards=(4, 6), tests=["long-stall"]),
         Leg("pipeline-race", "c09", "^TestPipeline$", engine="sched", race=True, checks=(200, 8000), shards=(2, 16), tests=["pipeline"]),
         Leg("pipeline-yield-race", "c09", "^TestPipeline$", engine="sched", race=True, instrument=_PIPE_FILES, checks=(150, 8000), shards=(2, 16), tests=["pipeline"]),
